@@ -817,7 +817,7 @@ func usesTrace(n *rNode, ct *Contract) bool {
 		switch n.Text {
 		case "count", "iter", "callarg", "callpos", "pushpos", "pushes", "lastpushed", "delivered", "nolocks", "held",
 			"sqlAllInTxn", "writesAllInTxn", "oneTxn", "casDrawnInTxn", "lockedThroughout", "postsAfterCommit", "stmtsScoped",
-			"cursorWhere", "cursorOrderBy", "cursorCount", "cursorRow", "cursorId", "lenlist", "intxn":
+			"tracepos", "cursorWhere", "cursorOrderBy", "cursorCount", "cursorRow", "cursorId", "lenlist", "intxn":
 			return true
 		}
 	case "id":
